@@ -141,4 +141,290 @@ theorem erbestsOf_spec (net : Net) (x : Nat) (c : NodeCfg) (j : Nat) (a : Adv)
         simp only [List.mem_filter] at hm
         exact ⟨by simpa using hat, hm.1, hm.2⟩
 
+/-- node `x` is at a fixed point of its re-evaluation -/
+def StableAt (net : Net) (x : Nat) (c : NodeCfg) (s : NodeSt) : Prop :=
+  net[x]? = some (c, s) ∧ c.alive = true ∧ stepNode net x = s
+
+theorem stepNode_eq (net : Net) (x : Nat) (c : NodeCfg) (s : NodeSt) (hx : net[x]? = some (c, s)) (ha : c.alive = true) :
+    stepNode net x =
+      (match slaveDec (decsOf c s (erbestsOf net x c)) with
+       | some a => { ports := (decsOf c s (erbestsOf net x c)).zipIdx.map fun (d, j) => portOf net x c s d j,
+                     parentClock := a.sender, parentPort := a.senderPort, steps := a.steps + 1, gm := a.gm }
+       | none =>
+         if (decsOf c s (erbestsOf net x c)).any (· = some .gm) then
+           { ports := (decsOf c s (erbestsOf net x c)).zipIdx.map fun (d, j) => portOf net x c s d j,
+             parentClock := c.id, parentPort := 0, steps := 0, gm := c.ownGm }
+         else { s with ports := (decsOf c s (erbestsOf net x c)).zipIdx.map fun (d, j) => portOf net x c s d j }) := by
+  unfold stepNode
+  rw [hx]
+  simp only [ha, Bool.not_true, Bool.false_eq_true, if_false]
+  rfl
+
+theorem stepNode_ports (net : Net) (x : Nat) (c : NodeCfg) (s : NodeSt) (hx : net[x]? = some (c, s)) (ha : c.alive = true) :
+    (stepNode net x).ports = (decsOf c s (erbestsOf net x c)).zipIdx.map fun (d, j) => portOf net x c s d j := by
+  rw [stepNode_eq net x c s hx ha]
+  split
+  · rfl
+  · split <;> rfl
+
+/-- the decision behind a port state of the re-evaluated node -/
+theorem port_decision (net : Net) (x : Nat) (c : NodeCfg) (s : NodeSt) (h : StableAt net x c s) (j : Nat) (st : PSt)
+    (hj : s.ports[j]? = some st) :
+    ∃ d, (decsOf c s (erbestsOf net x c))[j]? = some d ∧ portOf net x c s d j = st := by
+  obtain ⟨hx, ha, hs⟩ := h
+  have hp := stepNode_ports net x c s hx ha
+  rw [hs] at hp
+  rw [hp] at hj
+  simp only [List.getElem?_map] at hj
+  cases hz : (decsOf c s (erbestsOf net x c)).zipIdx[j]? with
+  | none => rw [hz] at hj; simp at hj
+  | some v =>
+    obtain ⟨d, k⟩ := v
+    rw [hz] at hj
+    rw [List.getElem?_zipIdx] at hz
+    cases hd : (decsOf c s (erbestsOf net x c))[j]? with
+    | none => rw [hd] at hz; simp at hz
+    | some d' =>
+      rw [hd] at hz
+      simp only [Option.map_some, Nat.zero_add, Option.some.injEq, Prod.mk.injEq] at hz
+      obtain ⟨rfl, rfl⟩ := hz
+      exact ⟨d', rfl, by simpa using hj⟩
+
+theorem portOf_slave (net : Net) (x : Nat) (c : NodeCfg) (s : NodeSt) (d : Option Dec) (j : Nat)
+    (h : portOf net x c s d j = .slave) : ∃ a, d = some (.s a) := by
+  unfold portOf at h
+  split at h
+  · split at h <;> cases h
+  · exact ⟨_, rfl⟩
+  · cases h
+  · split at h
+    · cases h
+    · split at h <;> cases h
+  · split at h
+    · cases h
+    · split at h <;> cases h
+
+theorem decsOf_get (c : NodeCfg) (s : NodeSt) (erbests : List (Option Adv)) (j : Nat) (d : Option Dec)
+    (h : (decsOf c s erbests)[j]? = some d) :
+    ∃ e, erbests[j]? = some e ∧
+      d = (if s.ports.getD j .listening = .listening ∧ e.isNone then none else some (Net.decide c (ebestOf c erbests) e j)) := by
+  unfold decsOf at h
+  simp only [List.getElem?_map] at h
+  cases hz : erbests.zipIdx[j]? with
+  | none => rw [hz] at h; simp at h
+  | some v =>
+    obtain ⟨e, k⟩ := v
+    rw [hz] at h
+    rw [List.getElem?_zipIdx] at hz
+    cases he : erbests[j]? with
+    | none => rw [he] at hz; simp at hz
+    | some e' =>
+      rw [he] at hz
+      simp only [Option.map_some, Nat.zero_add, Option.some.injEq, Prod.mk.injEq] at hz
+      obtain ⟨rfl, rfl⟩ := hz
+      simp only [Option.map_some, Option.some.injEq] at h
+      exact ⟨e', rfl, h.symm⟩
+
+/-- a Slave decision comes from an advertisement heard on that very port -/
+theorem slave_decision_source (net : Net) (x : Nat) (c : NodeCfg) (s : NodeSt) (j : Nat) (a : Adv)
+    (h : (decsOf c s (erbestsOf net x c))[j]? = some (some (Dec.s a))) :
+    ∃ pc : PortCfg, c.ports[j]? = some pc ∧ pc.attached = true ∧ a ∈ advsOn net pc.seg x j ∧ qualified c a = true := by
+  obtain ⟨e, he, hd⟩ := decsOf_get c s _ j _ h
+  split at hd
+  · cases hd
+  · simp only [Option.some.injEq] at hd
+    obtain ⟨_, h2⟩ := decide_slave c _ e j a hd.symm
+    subst h2
+    exact erbestsOf_spec net x c j a he
+
+theorem slaveDec_some (decs : List (Option Dec)) (a : Adv) (h : slaveDec decs = some a) :
+    ∃ j : Nat, decs[j]? = some (some (Dec.s a)) := by
+  unfold slaveDec at h
+  obtain ⟨d, hd, hs⟩ := List.exists_of_findSome?_eq_some h
+  obtain ⟨j, hj, rfl⟩ := List.getElem_of_mem hd
+  refine ⟨j, ?_⟩
+  rw [List.getElem?_eq_getElem hj]
+  split at hs
+  · simp only [Option.some.injEq] at hs; subst hs; rename_i heq; rw [heq]
+  · cases hs
+
+theorem slaveDec_of_mem (decs : List (Option Dec)) (j : Nat) (a : Adv) (h : decs[j]? = some (some (Dec.s a))) :
+    ∃ b, slaveDec decs = some b := by
+  unfold slaveDec
+  cases hf : decs.findSome? (fun d => match d with | some (.s a) => some a | _ => none) with
+  | some b => exact ⟨b, rfl⟩
+  | none =>
+    exfalso
+    rw [List.findSome?_eq_none_iff] at hf
+    have hm : some (Dec.s a) ∈ decs := List.mem_of_getElem? h
+    have := hf _ hm
+    simp at this
+
+theorem portOf_master (net : Net) (x : Nat) (c : NodeCfg) (s : NodeSt) (d : Option Dec) (j : Nat)
+    (h : portOf net x c s d j = .master) : d = none ∨ d = some .gm ∨ d = some .m3 := by
+  unfold portOf at h
+  split at h
+  · left; rfl
+  · cases h
+  · cases h
+  · right; left; rfl
+  · right; right; rfl
+
+theorem decide_m3 (c : NodeCfg) (ebest : Option (Adv × Nat)) (erbest : Option Adv) (j : Nat)
+    (h : Net.decide c ebest erbest j = .m3) : ∃ g gj, ebest = some (g, gj) := by
+  unfold Net.decide at h
+  simp only at h
+  split at h
+  · split at h
+    · cases h
+    · split at h <;> cases h
+  · split at h
+    · cases h
+    · exact ⟨_, _, rfl⟩
+
+/-- the port `Ebest` was heard on gets the Slave decision whenever some port gets M3 (`Ebest` is better than
+the instance's own data set) -/
+theorem ebest_port_is_slave (c : NodeCfg) (s : NodeSt) (erbests : List (Option Adv)) (j : Nat) (e : Option Adv)
+    (hm3 : Net.decide c (ebestOf c erbests) e j = .m3) :
+    ∃ (g : Adv) (gj : Nat), ebestOf c erbests = some (g, gj) ∧ (decsOf c s erbests)[gj]? = some (some (Dec.s g)) := by
+  obtain ⟨g, gj, hg⟩ := decide_m3 c _ e j hm3
+  refine ⟨g, gj, hg, ?_⟩
+  have hmem := ebestOf_mem c erbests (g, gj) hg
+  have hgj := candsOf_spec c erbests g gj hmem
+  -- the decision on port gj
+  have hlen : gj < erbests.length := by
+    rcases Nat.lt_or_ge gj erbests.length with h | h
+    · exact h
+    · rw [List.getElem?_eq_none h] at hgj; cases hgj
+  unfold decsOf
+  simp only [List.getElem?_map, List.getElem?_zipIdx, hgj, Option.map_some, Nat.zero_add]
+  have : ¬(s.ports.getD gj .listening = .listening ∧ (some g).isNone = true) := by simp
+  simp only [this, if_false, Option.some.injEq]
+  -- decide on that port with erbest = g: own is worse than Ebest (as on port j), the port is Ebest's
+  unfold Net.decide at hm3 ⊢
+  simp only at hm3 ⊢
+  split at hm3
+  · split at hm3
+    · cases hm3
+    · split at hm3 <;> cases hm3
+  · rename_i hcls
+    simp only [hcls, if_false]
+    rw [hg] at hm3 ⊢
+    simp only at hm3 ⊢
+    split at hm3
+    · rename_i hlt
+      simp [hlt]
+    · cases hm3
+
+/-- **Every Slave port follows a Master port of its own segment, one step closer to the same grandmaster.**
+In a fixed point, an instance with a Slave port has as parent a live instance with a Master port attached
+to the segment of one of its own ports; its stepsRemoved is the parent's plus one and it carries the
+parent's grandmaster attributes. The parent is a different clock. -/
+theorem slave_follows_master_port (net : Net) (x : Nat) (c : NodeCfg) (s : NodeSt) (h : StableAt net x c s)
+    (j : Nat) (hj : s.ports[j]? = some PSt.slave) :
+    ∃ (n : Nat) (cn : NodeCfg) (sn : NodeSt) (k : Nat) (pc : PortCfg) (j' : Nat) (pc' : PortCfg),
+      net[n]? = some (cn, sn) ∧ cn.alive = true ∧ cn.ports[k]? = some pc ∧ pc.attached = true ∧
+      sn.ports.getD k PSt.listening = PSt.master ∧ c.ports[j']? = some pc' ∧ pc'.attached = true ∧ pc.seg = pc'.seg ∧
+      s.parentClock = cn.id ∧ s.parentPort = k + 1 ∧ s.steps = sn.steps + 1 ∧ s.gm = sn.gm ∧ cn.id ≠ c.id := by
+  obtain ⟨d, hd, hp⟩ := port_decision net x c s h j .slave hj
+  obtain ⟨a0, rfl⟩ := portOf_slave net x c s d j hp
+  obtain ⟨b, hb⟩ := slaveDec_of_mem _ j a0 hd
+  obtain ⟨hx, ha, hs⟩ := h
+  have he := stepNode_eq net x c s hx ha
+  rw [hs, hb] at he
+  obtain ⟨j', hj'⟩ := slaveDec_some _ b hb
+  obtain ⟨pc', hpc', hat', hmem, hq⟩ := slave_decision_source net x c s j' b hj'
+  obtain ⟨n, cn, sn, k, pc, hn, hal, hk, hseg, hatt, hm, _, hb'⟩ := advsOn_spec net pc'.seg x j' b hmem
+  refine ⟨n, cn, sn, k, pc, j', pc', hn, hal, hk, hatt, hm, hpc', hat', hseg, ?_, ?_, ?_, ?_, ?_⟩
+  · rw [he, hb']
+  · rw [he, hb']
+  · rw [he, hb']
+  · rw [he, hb']
+  · unfold qualified at hq
+    rw [hb'] at hq
+    simp at hq
+    exact hq.1
+
+/-- an instance in the grandmaster state: stepsRemoved 0, its own attributes as grandmaster attributes -/
+def IsGm (c : NodeCfg) (s : NodeSt) : Prop := s.steps = 0 ∧ s.gm = c.ownGm ∧ s.parentClock = c.id
+
+/-- **Whoever advertises is a grandmaster or a slave itself.** In a fixed point a live instance with a
+Master port is either in the grandmaster state or has a Slave port of its own. -/
+theorem master_port_node (net : Net) (x : Nat) (c : NodeCfg) (s : NodeSt) (h : StableAt net x c s)
+    (k : Nat) (hk : s.ports.getD k .listening = .master) :
+    IsGm c s ∨ ∃ j : Nat, s.ports[j]? = some PSt.slave := by
+  have hk' : s.ports[k]? = some PSt.master := by
+    cases hg : s.ports[k]? with
+    | none => simp [List.getD, hg] at hk
+    | some v => simp [List.getD, hg] at hk; rw [hk]
+  obtain ⟨d, hd, hp⟩ := port_decision net x c s h k .master hk'
+  obtain ⟨hx, ha, hs⟩ := h
+  have he := stepNode_eq net x c s hx ha
+  rw [hs] at he
+  have hports := stepNode_ports net x c s hx ha
+  rw [hs] at hports
+  -- a slave decision anywhere gives a Slave port
+  have slave_port : ∀ b, slaveDec (decsOf c s (erbestsOf net x c)) = some b → ∃ j : Nat, s.ports[j]? = some PSt.slave := by
+    intro b hb
+    obtain ⟨j, hj⟩ := slaveDec_some _ b hb
+    refine ⟨j, ?_⟩
+    rw [hports]
+    simp only [List.getElem?_map, List.getElem?_zipIdx, hj, Option.map_some, Nat.zero_add]
+    rfl
+  rcases portOf_master net x c s d k hp with rfl | rfl | rfl
+  · -- no decision: the port would have to be Listening
+    obtain ⟨e, _, hd2⟩ := decsOf_get c s _ k _ hd
+    split at hd2
+    · rename_i hl
+      rw [hk] at hl
+      cases hl.1
+    · cases hd2
+  · -- M1 / M2
+    cases hsd : slaveDec (decsOf c s (erbestsOf net x c)) with
+    | some b => right; exact slave_port b hsd
+    | none =>
+      left
+      rw [hsd] at he
+      have hany : (decsOf c s (erbestsOf net x c)).any (· = some .gm) = true := by
+        rw [List.any_eq_true]
+        exact ⟨some .gm, List.mem_of_getElem? hd, by simp⟩
+      simp only [hany, if_true] at he
+      unfold IsGm
+      rw [he]
+      exact ⟨rfl, rfl, rfl⟩
+  · -- M3: Ebest is better than own, so its port is Slave
+    right
+    obtain ⟨e, _, hd2⟩ := decsOf_get c s _ k _ hd
+    split at hd2
+    · cases hd2
+    · simp only [Option.some.injEq] at hd2
+      obtain ⟨g, gj, _, hs1⟩ := ebest_port_is_slave c s _ k e hd2.symm
+      obtain ⟨b, hb⟩ := slaveDec_of_mem _ gj g hs1
+      exact slave_port b hb
+
+/-- every live node of the network is at its fixed point -/
+def Stable (net : Net) : Prop := ∀ x c s, net[x]? = some (c, s) → c.alive = true → stepNode net x = s
+
+/-- **No loops, no phantom grandmaster.** In a fixed point of the whole network, every instance with a
+Slave port follows, over exactly `stepsRemoved` parent hops, a live instance that is in the grandmaster
+state, and the grandmaster attributes it holds are that instance's own. (Parent chains strictly decrease in
+stepsRemoved by `slave_follows_master_port`, so the parent relation has no cycle.) -/
+theorem slave_reaches_live_grandmaster (net : Net) (hst : Stable net) :
+    ∀ (d x : Nat) (c : NodeCfg) (s : NodeSt), net[x]? = some (c, s) → c.alive = true →
+      (∃ j : Nat, s.ports[j]? = some PSt.slave) → s.steps = d →
+      ∃ (r : Nat) (cr : NodeCfg) (sr : NodeSt), net[r]? = some (cr, sr) ∧ cr.alive = true ∧ IsGm cr sr ∧ s.gm = cr.ownGm ∧ 0 < d := by
+  intro d
+  induction d using Nat.strongRecOn with
+  | ind d ih =>
+    intro x c s hx ha ⟨j, hj⟩ hd
+    have hsx : StableAt net x c s := ⟨hx, ha, hst x c s hx ha⟩
+    obtain ⟨n, cn, sn, k, pc, j', pc', hn, hal, hk, hatt, hm, _, _, _, _, _, hsteps, hgm, _⟩ :=
+      slave_follows_master_port net x c s hsx j hj
+    have hsn : StableAt net n cn sn := ⟨hn, hal, hst n cn sn hn hal⟩
+    rcases master_port_node net n cn sn hsn k hm with hgmn | hsl
+    · exact ⟨n, cn, sn, hn, hal, hgmn, by rw [hgm, hgmn.2.1], by omega⟩
+    · have hlt : sn.steps < d := by omega
+      obtain ⟨r, cr, sr, hr, har, hgr, hgme, _⟩ := ih sn.steps hlt n cn sn hn hal hsl rfl
+      exact ⟨r, cr, sr, hr, har, hgr, by rw [hgm, hgme], by omega⟩
+
 end Statime.Net
